@@ -3,6 +3,8 @@
 
 package tengo
 
+import "github.com/d5/tengo/v2/parser"
+
 // Verification hooks (build tag "verif"). With the tag off, verif_nohooks.go
 // supplies empty stubs and the hooks compile to nothing.
 
@@ -25,4 +27,24 @@ func verifKeepDead() bool { return VerifKeepDeadCode }
 // VerifState exposes the VM registers after a run.
 func (v *VM) VerifState() (sp, framesIndex int, allocs int64) {
 	return v.sp, v.framesIndex, v.allocs
+}
+
+// VerifOptimize runs optimizeFunc on a hand-assembled function body.
+func VerifOptimize(insts []byte, srcMap map[int]parser.Pos, node parser.Node) (out []byte, sm map[int]parser.Pos, panicked interface{}) {
+	defer func() {
+		if p := recover(); p != nil {
+			panicked = p
+		}
+	}()
+	c := &Compiler{
+		scopes: []compilationScope{{
+			Instructions: append([]byte{}, insts...),
+			SourceMap:    map[int]parser.Pos{},
+		}},
+	}
+	for k, v := range srcMap {
+		c.scopes[0].SourceMap[k] = v
+	}
+	c.optimizeFunc(node)
+	return c.scopes[0].Instructions, c.scopes[0].SourceMap, nil
 }
